@@ -1,14 +1,19 @@
 // ---- ASSUMED axioms about std types (each is one line of `assumptions` in the evidence) ----
 pub mod ax {
     use super::*;
-    /// `str` / `String` equality is extensional (needed because `match s.as_str() { CONST => ..}` is str equality)
+    /// `str` / `String` values are determined by their character sequence (needed because `match s.as_str() { CONST => ..}`
+    /// is `str` equality and HashMap<String, _> keys are `String` values).  Stated through an inverse of the view, so that
+    /// each string term instantiates it once (a two-trigger form `a@, b@` instantiates per PAIR of strings: measured 95% of
+    /// all quantifier instantiations of the resolve proof).
+    pub uninterp spec fn mk_str(s: Seq<char>) -> &'static str;
+    pub uninterp spec fn mk_string(s: Seq<char>) -> String;
     #[verifier::external_body]
-    pub broadcast proof fn axiom_strslice_ext(a: &str, b: &str)
-        ensures #![trigger a@, b@] (a@ =~= b@) ==> a == b
+    pub broadcast proof fn axiom_strslice_ext(a: &str)
+        ensures mk_str(#[trigger] a@) == a
     {}
     #[verifier::external_body]
-    pub broadcast proof fn axiom_string_ext(a: String, b: String)
-        ensures #![trigger a@, b@] (a@ =~= b@) ==> a == b
+    pub broadcast proof fn axiom_string_ext(a: String)
+        ensures mk_string(#[trigger] a@) == a
     {}
     #[verifier::external_body]
     pub broadcast proof fn axiom_refstring_into_string()
